@@ -365,6 +365,7 @@ class Result:
         self.loops = []     # (index, iter_term, node)
         self.after_loop = {}  # loop index -> env right after the loop
         self.nested = {}    # name -> (FunctionDef, env snapshot)
+        self.objects = {}   # object symbol -> {l-value term: value} as left by its constructor (model_objects)
         self.lambdas = []
 
     def calls(self, name=None, attr=None):
@@ -398,6 +399,7 @@ class Evaluator:
         self._brk_stack = []
         self._pending_pc = ()
         self.inline_closures = True
+        self.model_objects = False     # constructors of project classes run on a fresh symbol; calling the object runs __call__
         self.volatile = set()     # method names whose calls read shared mutable state (e.g. Event.is_set)
         self._closures = {}       # nested function name -> (FunctionDef, defining env): local helpers are inlined when called
         self._depth = 0
@@ -874,6 +876,15 @@ class Evaluator:
                     return base[2][fields.index(n.attr)]
             if base[0] == "ite":
                 return mk_ite(base[1], self._attr(base[2], n.attr, env), self._attr(base[3], n.attr, env))
+            if n.attr in ("start", "stop", "step") and ((base[0] == "call" and base[1] == ("sym", "slice") and not base[3] and 1 <= len(base[2]) <= 3) or base[0] == "slice"):
+                # slice(a, b[, c]).start / .stop / .step
+                if base[0] == "slice":
+                    parts = list(base[1:4])
+                elif len(base[2]) == 1:
+                    parts = [NONE, base[2][0], NONE]
+                else:
+                    parts = list(base[2]) + [NONE] * (3 - len(base[2]))
+                return parts[("start", "stop", "step").index(n.attr)]
             if n.attr.isupper():
                 return self._attr(base, n.attr, env)        # class-level constants of locally created project objects
             return lv
@@ -1435,6 +1446,38 @@ class Evaluator:
                     if r is not None:
                         ev.extra = r
                         return r
+        if target is None and self.model_objects and self.project is not None and self._depth < self.max_inline_depth \
+                and not any(a[0] == "star" for a in args) and not any(k == "**" for k, _v in kws):
+            # (a) construction of a project object: the constructor runs on a fresh symbol, what it stores into the object's fields
+            #     is remembered in the environment, and the symbol is the value
+            if f[0] == "sym" and f[1] not in self.no_inline and f[1] not in self.namedtuples:
+                cand, bound = self._callee(f)
+                if cand is not None and cand.node.name == "__init__" and bound and cand.qual not in self._stack and cand.module.kind == "py":
+                    osym = ("sym", "$%s@%d" % (f[1], getattr(n, "lineno", 0)))
+                    facts = {k: v for k, v in env.items() if isinstance(k, tuple)}
+                    back = {}
+                    r = self._inline(cand, [osym] + list(args), kws, res, pc, env=facts, out_env=back)
+                    if r is not None and r[0] != "op":
+                        fields = {}
+                        for k, v in back.items():
+                            if isinstance(k, tuple) and k[0] == "attr" and _root_term(k) == osym:
+                                env[k] = v
+                                fields[k] = v
+                        if res is not None:
+                            res.objects[osym] = (cand.qual.rsplit(".", 1)[0], fields)
+                        self.recv_classes = dict(self.recv_classes or {})
+                        self.recv_classes[osym] = cand.qual.rsplit(".", 1)[0]
+                        ev.extra = osym
+                        return osym
+            # (b) calling such an object: its __call__ with the object as self
+            if f[0] == "sym" and self.recv_classes and f in self.recv_classes:
+                cand = self.project.funcs.get(self.recv_classes[f] + ".__call__")
+                if cand is not None and cand.qual not in self._stack and not _is_generator(cand.node):
+                    facts = {k: v for k, v in env.items() if isinstance(k, tuple)}
+                    r = self._inline(cand, [f] + list(args), kws, res, pc, env=facts)
+                    if r is not None:
+                        ev.extra = r
+                        return r
         if target is None and self.inline_resolved and self.project is not None and f[0] in ("sym", "attr") \
                 and (f[1] if f[0] == "sym" else f[2]) not in self.no_inline and self._depth < self.max_inline_depth:
             cand, bound = self._callee(f)
@@ -1707,6 +1750,7 @@ class Evaluator:
         sub_ev.self_class = self.self_class
         sub_ev.recv_classes = self.recv_classes
         sub_ev.inline_resolved = self.inline_resolved
+        sub_ev.model_objects = self.model_objects
         sub_ev.ctx_module = func.module.name if hasattr(func, "module") else self.ctx_module
         for p in params:
             if p not in binding:
@@ -1721,6 +1765,7 @@ class Evaluator:
             return None
         if res is not None:
             res.loops.extend(r.loops)
+            res.objects.update(r.objects)
         if out_env is not None and r.env is not None:
             out_env.update(r.env)
         if res is not None:
@@ -1945,6 +1990,13 @@ def _base_of(term):
     return t
 
 
+def _root_term(term):
+    t = term
+    while isinstance(t, tuple) and t and t[0] in ("attr", "sub", "item"):
+        t = t[1]
+    return t
+
+
 def _root_of(term):
     """(root symbol name, first attribute) of an lvalue term like self.a.b[c]."""
     first = None
@@ -1988,6 +2040,14 @@ def find_namedtuples(project):
                         out[n.targets[0].id] = tuple(spec.value.replace(",", " ").split())
                     elif isinstance(spec, (ast.List, ast.Tuple)) and all(isinstance(e, ast.Constant) for e in spec.elts):
                         out[n.targets[0].id] = tuple(e.value for e in spec.elts)
+            elif isinstance(n, ast.ClassDef) and len(n.bases) == 1 and isinstance(n.bases[0], ast.Call) and (dotted(n.bases[0].func) or "").split(".")[-1] == "namedtuple" \
+                    and len(n.bases[0].args) >= 2 and not any(isinstance(m, ast.FunctionDef) and m.name in ("__new__", "__init__") for m in n.body):
+                # class X(namedtuple("X", "a b c")): methods added to a plain record; construction is the record's
+                spec = n.bases[0].args[1]
+                if isinstance(spec, ast.Constant) and isinstance(spec.value, str):
+                    out[n.name] = tuple(spec.value.replace(",", " ").split())
+                elif isinstance(spec, (ast.List, ast.Tuple)) and all(isinstance(e, ast.Constant) for e in spec.elts):
+                    out[n.name] = tuple(e.value for e in spec.elts)
     return out
 
 
